@@ -140,4 +140,5 @@ def main():
     print(f"mutants: {len(results)} run, {len(results)-len(missed)} detected; not detected: {missed}")
     return 0 if not missed else 1
 
-sys.exit(main())
+if __name__ == "__main__":
+    sys.exit(main())
